@@ -390,6 +390,27 @@ def inclusion_sites(ctx, f, name):
                 out.append((x, x.args[0], set(dom_guard(ctx, f, n.id)), loops))
     return out
 
+def result_sites(ctx, f):
+    """[(cfg node, value expression, atoms, inside a loop body?)]: the places that decide what the function returns, whichever way
+    it is written - a `return <expr>`, or for `return v` every `v = <expr>` in the function (the result variable idiom).
+    atoms = the conditions that dominate the place (flags expanded)."""
+    cfg = cfg_of(f)
+    loops = [l.ast for l in cfg.nodes if l.kind == "for" or (l.kind == "test" and isinstance(getattr(l, "stmt", None), ast.While))]
+    inside = lambda st: any(any(y is st for b in lp.body for y in ast.walk(b)) for lp in loops if hasattr(lp, "body"))
+    out, names = [], set()
+    for n in cfg.nodes:
+        if n.kind == "stmt" and isinstance(n.ast, ast.Return):
+            if isinstance(n.ast.value, ast.Name):
+                names.add(n.ast.value.id)
+            else:
+                out.append((n, n.ast.value if n.ast.value is not None else ast.Constant(value=None), set(dom_guard(ctx, f, n.id)), inside(n.ast)))
+    for n in cfg.nodes:
+        if n.kind == "stmt" and isinstance(n.ast, ast.Assign) and len(n.ast.targets) == 1 and isinstance(n.ast.targets[0], ast.Name) \
+                and n.ast.targets[0].id in names:
+            out.append((n, n.ast.value, set(dom_guard(ctx, f, n.id)), inside(n.ast)))
+    return out
+
+
 # ------------------------------------------------------------------ paths that respect what a branch edge established
 def consistent_with(cond, truth):
     """edge_ok for CFG.path: given that `cond` evaluated to `truth` at the start (e.g. decision == SchedulerDecision.STOP), reject
